@@ -868,7 +868,8 @@ contract(
     f"{GBX}:GeoBox.zoom_out",
     ["C02"],
     inputs=dict(self=GEOBOX(), factor=Real(gt=0)),
-    ensures=[("same CRS; as compute_zoom_out", lambda self, factor, result: And(view(result, self, S_(factor, factor)), *[And(n >= 1, n * factor >= N) for n, N in zip(result.shape.yx, self.shape.yx)]))],
+    ensures=[("same CRS; as compute_zoom_out", lambda self, factor, result: And(view(result, self, S_(factor, factor)), *[And(n >= 1, n * factor >= N, Or(n == 1, (n - 1) * factor < N)) for n, N in zip(result.shape.yx, self.shape.yx)]))],
+    returns=lambda self: GEOBOX(),
 )
 contract(
     f"{GBX}:GeoBox.zoom_to",
